@@ -581,32 +581,27 @@ let spec_check (know : int list) (s : sx) =
           (fun () -> "Map<K,Orswot> without key removes: the complete state (map clock, keys, entry clocks, nested sets with witness clocks and parked removes) differs from the specification of the replica's knowledge") okv;
         classes := saved
       end;
-      (* EXPERIMENT (statement validation): Map<K, Orswot> WITH key removes and merges, outside the history classes of
-         T2 (a removed key with two updates of one actor) and T3 (a removed key with an update carrying a nested remove) *)
-      if !ty = "mapor" && !all_per_actor && !merges_seen then begin
-        let cls = Known.classify !ty (List.rev_map (fun (_, o, _) -> o) !hist) in
-        if not (List.mem_assoc "T2" cls) && not (List.mem_assoc "T3" cls)
-           && List.exists (fun (_, o, _) -> Known.is_rm o) !hist then begin
-          let okv = movalspec_ok (history_of (mop_sx or_inst)) k (cmap_sx or_inst s) in
-          stat ("mapkm_" ^ (if okv then "ok" else "bad"));
-          if not okv && (try Sys.getenv "VERIF_SHOW_M2" = "1" with Not_found -> false) then
-            Printf.printf "KMBAD case=%s cmd=%s\n" (fst !cur) (snd !cur)
+      (* Map<K, Orswot> WITH key removes and merges in the fragment the known findings leave: no update carries a nested
+         remove and every key named by a key remove is updated at most once by each actor (km_once).  The complete state is
+         [mapor_spec_km] of the knowledge (C01_mapor_km_refine, C03_mapor_km_merge_spec, C08_mapor_km_any_discipline,
+         C20_mapor_km_state_eq, C05_mapor_km_ok; proofs/MapOrswotKM.v); theorem-backed, never attributed to a known finding *)
+      if !ty = "mapor" && !all_per_actor then begin
+        let ops = List.rev_map (fun (_, o, _) -> o) !hist in
+        let rmk = List.concat_map (Known.rm_keys 0) ops and ups = List.concat_map (Known.updates 0) ops in
+        let once = List.for_all (fun (lv, kk) ->
+          let actors = List.filter_map (fun (l, k', a, _) -> if l = lv && k' = kk then Some a else None) ups in
+          List.length actors = List.length (List.sort_uniq compare actors)) rmk in
+        let addonly = not (List.exists (fun (_, _, _, op) -> Known.contains_remove op) ups) in
+        if once && addonly && rmk <> [] then begin
+          let okv = mapor_km_ok (history_of (mop_sx or_inst)) k (cmap_sx or_inst s) in
+          stat ("mapkm_" ^ (if okv then "ok" else "bad") ^ (if !merges_seen then "_merge" else ""));
+          let saved = !classes in
+          classes := [];
+          expect_all (["C05"; "C20"] @ (if !merges_seen then ["C03"] else if !all_causal then ["C01"] else ["C08"]))
+            (fun () -> "Map<K,Orswot> with key removes (every removed key updated at most once per actor, no nested remove): the complete state differs from the specification of the replica's knowledge") okv;
+          classes := saved;
+          emit_spec_case (fun () -> "Bool.eqb (mapor_km_ok " ^ coq_hist "(mop oop)" (coq_mop coq_oop) (mop_sx or_inst) ^ " " ^ coq_know know ^ " (" ^ coq_cmap coq_orswot (cmap_sx or_inst s) ^ " : cmap orswot)) " ^ string_of_bool okv)
         end
-      end;
-      (* depth 2 without key removes at either level (per-actor delivery, duplicates, MERGES): the complete state is
-         [map2_spec_nk] of the knowledge (C01_map2_nk_refine, C03_map2_nk_merge_spec, C08_map2_nk_any_discipline,
-         C20_map2_nk_state_eq, C05_map2_nk_ok; proofs/MapMapOrswotNK.v); theorem-backed *)
-      if !ty = "mapmo" && !all_per_actor
-         && not (List.exists (fun (_, o, _) -> Known.is_rm o || (Known.is_up o && Known.is_rm (field "op" o))) !hist) then begin
-        let i = map_inst or_inst in
-        let okv = map2_nk_ok (history_of (mop_sx i)) k (cmap_sx i s) in
-        stat ("map2nk_" ^ (if okv then "ok" else "bad") ^ (if !merges_seen then "_merge" else ""));
-        let saved = !classes in
-        classes := [];
-        expect_all (["C05"; "C20"] @ (if !merges_seen then ["C03"] else if !all_causal then ["C01"] else ["C08"]))
-          (fun () -> "Map<K1,Map<K2,Orswot>> without key removes: the complete state differs from the specification of the replica's knowledge") okv;
-        classes := saved;
-        emit_spec_case (fun () -> "Bool.eqb (map2_nk_ok " ^ coq_hist "(mop (mop oop))" (coq_mop (coq_mop coq_oop)) (mop_sx i) ^ " " ^ coq_know know ^ " (" ^ coq_cmap (coq_cmap coq_orswot) (cmap_sx i s) ^ " : cmap (cmap orswot))) " ^ string_of_bool okv)
       end;
       (* value level at depth 2, Map<K1, Map<K2, Orswot>>, causal op-based delivery: theorems
          C05_map2_values_refine / C05_map2_valspec_ok / C01_map2_converge (proofs/MapMapOrswot.v);
